@@ -42,7 +42,12 @@ def hourly_usage(T, idx, curve, noise, tag):
     c, hb, hbp, cb, cbp = curve
     hr = idx.hour.to_numpy()
     occ = ((hr > 7) & (hr < 21)).astype(float)
-    return c + hb * np.maximum(hbp - T, 0) + cb * np.maximum(T - cbp, 0) + 0.6 * occ + _rng("U" + tag).normal(0, noise, len(T))
+    # two (month, weekday) combinations have a load shape of their own (a night shift on July Sundays, a midday dip on February
+    # Wednesdays): small temporal clusters, which the clustering options may merge or set aside
+    mon, dow = idx.month.to_numpy(), idx.dayofweek.to_numpy()
+    odd = np.where((mon == 7) & (dow == 6), 1.5 * np.exp(-(((hr - 4) / 2.0) ** 2)) - 0.6 * occ, 0.0) + \
+        np.where((mon == 2) & (dow == 2), -0.5 * np.exp(-(((hr - 12) / 3.0) ** 2)), 0.0)
+    return c + hb * np.maximum(hbp - T, 0) + cb * np.maximum(T - cbp, 0) + 0.6 * occ + odd + _rng("U" + tag).normal(0, noise, len(T))
 
 
 CURVE_A = (20.0, 1.0, 50.0, 1.5, 65.0)
